@@ -214,6 +214,40 @@ def fmt_state(s: Tuple) -> str:
     return "{" + ", ".join(f"{k}={v!r}" for k, v in s if not k.startswith("__")) + ("" if not dict(s).get("__broken__") else ", loop stopped") + "}"
 
 
+def _stateless(ctx) -> None:
+    """`depends only on which Python types occur`: the functions of the typing module keep no state between calls - none of them
+    writes a module-level container (a memo of promotion steps keyed by the two kinds hands the FIRST caller's nullability to every
+    later caller: the automaton above is evaluated from an empty memo and cannot see that)."""
+    prog = ctx.prog
+    m = prog.modules["typing"]
+    containers = set()
+    for st in m.tree.body:
+        tgt = st.targets[0] if isinstance(st, ast.Assign) and len(st.targets) == 1 else st.target if isinstance(st, ast.AnnAssign) else None
+        val = getattr(st, "value", None)
+        if isinstance(tgt, ast.Name) and val is not None and (
+                isinstance(val, (ast.Dict, ast.List, ast.Set, ast.DictComp, ast.ListComp, ast.SetComp))
+                or (isinstance(val, ast.Call) and isinstance(val.func, ast.Name) and val.func.id in ("dict", "list", "set", "defaultdict", "OrderedDict"))):
+            containers.add(tgt.id)
+    writes = []
+    MUT = {"setdefault", "update", "add", "append", "extend", "insert", "pop", "popitem", "clear", "remove", "discard", "__setitem__"}
+    for q, f in sorted(prog.functions.items()):
+        if f.module != "typing" or isinstance(f.node, ast.Lambda):
+            continue
+        for n in ast.walk(f.node):
+            if isinstance(n, ast.Call) and isinstance(n.func, ast.Attribute) and n.func.attr in MUT and isinstance(n.func.value, ast.Name) \
+                    and n.func.value.id in containers:
+                writes.append((q, n))
+            elif isinstance(n, ast.Subscript) and isinstance(n.ctx, (ast.Store, ast.Del)) and isinstance(n.value, ast.Name) and n.value.id in containers:
+                writes.append((q, n))
+            elif isinstance(n, ast.Global):
+                writes.append((q, n))
+    ctx.ob("a.automaton", "typing", "stateless", not writes, f"no function of typing.py writes a module-level container ({len(containers)} present)",
+           (writes[0][1] if writes else None),
+           message="; ".join(f"{q} (line {getattr(n, 'lineno', '?')}) writes module-level state `{short(n, 50)}`" for q, n in writes[:2])
+                   + ": the result of a promotion then depends on the calls made before it (a memo keyed by the two kinds returns the first "
+                     "caller's nullability), not only on the dtype and the value")
+
+
 def run(ctx) -> None:
     ctx.rule("a.automaton", "infer_dtype/promote_with/infer_kind evaluate inside the abstract evaluator's subset; the reachable "
                             "state space of the inference loop is finite and tabulated", 1)
@@ -231,6 +265,7 @@ def run(ctx) -> None:
     tags_core = list(CORE_TAGS)
     tags_all = CORE_TAGS + SUB_TAGS
     ctx.section("automaton", _automaton, ctx, tags_all, tags_core)
+    ctx.section("stateless", _stateless, ctx)
     ctx.section("promote", _promote, ctx, tags_all)
     ctx.section("infer-kind", _infer_kind, ctx, tags_all)
     ctx.rule("d.result-sites", "results of arithmetic, joins, aggregate, window, broadcasting and CSV parsing are constructed "
@@ -424,6 +459,38 @@ def _result_sites(ctx) -> None:
     from ..symx import NONE as SNONE
     prog = ctx.prog
     wanted = set(RESULT_FUNCS)
+    # ... and the later helpers they hand the construction of their result to (`Table._join_result(...)`: a helper that is not
+    # part of the reference vocabulary, called - directly or through another such helper - from one of them)
+    from ..symx import baseline_functions
+    base = baseline_functions()
+    by_name = {}
+    for q_, f_ in prog.functions.items():
+        if q_ not in base and not isinstance(f_.node, ast.Lambda) and f_.parent is None:
+            by_name.setdefault(f_.name, []).append(q_)
+    todo = [q_ for q_ in wanted if q_ in prog.functions]
+    while todo:
+        f_ = prog.functions[todo.pop()]
+        for c_ in ast.walk(f_.node):
+            if isinstance(c_, ast.Call):
+                nm_ = c_.func.id if isinstance(c_.func, ast.Name) else c_.func.attr if isinstance(c_.func, ast.Attribute) else None
+                for q2 in by_name.get(nm_, []):
+                    if q2 not in wanted:
+                        wanted.add(q2)
+                        todo.append(q2)
+    # (the arithmetic kernel and the later helpers it reaches: where its known incompatible-operand fallback may be written)
+    kernel_fns = {"vector.Vector._elementwise_operation"}
+    todo = list(kernel_fns)
+    while todo:
+        f_ = prog.functions.get(todo.pop())
+        if f_ is None:
+            continue
+        for c_ in ast.walk(f_.node):
+            if isinstance(c_, ast.Call):
+                nm_ = c_.func.id if isinstance(c_.func, ast.Name) else c_.func.attr if isinstance(c_.func, ast.Attribute) else None
+                for q2 in by_name.get(nm_, []):
+                    if q2 not in kernel_fns:
+                        kernel_fns.add(q2)
+                        todo.append(q2)
     n = 0
     ords = {}
     for s in all_sites2(prog):
@@ -439,6 +506,7 @@ def _result_sites(ctx) -> None:
         n += 1
         it = s.it
         ok, why = True, "no dtype: inferred from the stored values"
+        pairs_fallback = False
         if s.dtype is not None and s.dtype != SNONE:
             for d in leaves(s.dtype):
                 if d == SNONE:
@@ -467,7 +535,19 @@ def _result_sites(ctx) -> None:
                     why = f"a copy of {s.sh(d[1], 30)} (all of its own elements) under its own dtype"
                 else:
                     ok, why = False, f"explicit dtype `{s.sh(d, 50)}` instead of inference over the result values"
+                    if d[0] == "call" and d[1] == ("name", "DataType") and d[2][:1] == (("name", "object"),) and s.data is not None:
+                        evs_ = [element_values(it, x) for x in leaves(s.data)]
+                        if evs_ and all(e is not None and any(v[0] == "tuple" or (v[0] == "ifexp" and any(y[0] == "tuple" for y in leaves(v)))
+                                                              for v, _ in e) for e in evs_):
+                            pairs_fallback = True
         k = ords[owner.qualname] = ords.get(owner.qualname, 0) + 1
+        if not ok and (why.startswith("constant <object> over (x, y) tuples") or pairs_fallback) and top.qualname in kernel_fns:
+            # the incompatible-operand fallback of the arithmetic kernel (a known finding: pinned by a test): identified by WHAT it is,
+            # wherever a refactoring puts the construction - in the kernel itself or in a helper of it
+            ctx.ob("d.result-sites", prog.func("vector.Vector._elementwise_operation"), "object-over-pairs", ok, why, s.node,
+                   message=f"{owner.qualname}: result constructed as `{s.sh(s.call, 90)}` - {why}; the statement requires results to be typed by "
+                           f"the inference rule applied to their values")
+            continue
         ctx.ob("d.result-sites", owner, f"site:{k}", ok, why, s.node,
                message=f"{owner.qualname}: result constructed as `{s.sh(s.call, 90)}` - {why}; the statement requires results to be typed by "
                        f"the inference rule applied to their values")
